@@ -22,15 +22,16 @@ Definition death_effects cfg fn tok now chunk (f0 : fs) (ws : list bytes) (d : d
   | WriteError k i j => write_error_effects cfg fn tok now chunk f0 ws k i j
   end.
 
-(* the target file that survives *)
+(* the target file that survives, as reading the target path yields it (through a link, if it is one) *)
 Definition surviving cfg fn tok now chunk (f0 : fs) (ws : list bytes) (d : death) : option bytes :=
-  apply (death_effects cfg fn tok now chunk f0 ws d) f0 fn.
+  rd cfg fn (apply (death_effects cfg fn tok now chunk f0 ws d) f0).
 
 Lemma atomic_any_death cfg fn tok now chunk f0 ws d :
-  token_ok tok = true -> digits_ok now = true -> same_fs cfg = true ->
-  atomic_outcome (f0 fn) (concat ws) (surviving cfg fn tok now chunk f0 ws d).
+  token_ok tok = true -> digits_ok now = true -> link_ok cfg fn tok now f0 -> same_fs cfg = true ->
+  atomic_outcome (rd cfg fn f0) (concat ws) (surviving cfg fn tok now chunk f0 ws d).
 Proof.
-  intros Ht Hn Hs. unfold same_fs in Hs. apply negb_true_iff in Hs.
+  intros Ht Hn Hl Hs. unfold same_fs in Hs. apply negb_true_iff in Hs.
+  pose proof (link_ok_paths _ _ _ _ _ Hl). pose proof (link_ok_alive _ _ _ _ _ Hl).
   unfold surviving. destruct d as [k|k i|k i j]; cbn [death_effects].
   - now apply atomic_same_fs.
   - apply atomic_under_unwinding; auto using table_unwind_rolls_back.
@@ -102,13 +103,13 @@ Proof.
 Qed.
 
 Lemma loads_old_or_new c cfg fn tok now chunk f0 ws d :
-  token_ok tok = true -> digits_ok now = true -> same_fs cfg = true ->
-  (must_exist c = true -> f0 fn <> None) ->
+  token_ok tok = true -> digits_ok now = true -> link_ok cfg fn tok now f0 -> same_fs cfg = true ->
+  (must_exist c = true -> rd cfg fn f0 <> None) ->
   let t := surviving cfg fn tok now chunk f0 ws d in
-  load c t = load c (f0 fn) \/ load c t = load c (Some (concat ws)).
+  load c t = load c (rd cfg fn f0) \/ load c t = load c (Some (concat ws)).
 Proof.
-  intros Ht Hn Hs Hex. cbv zeta.
-  destruct (atomic_any_death cfg fn tok now chunk f0 ws d Ht Hn Hs) as [E|[E|[E1 E2]]].
+  intros Ht Hn Hl Hs Hex. cbv zeta.
+  destruct (atomic_any_death cfg fn tok now chunk f0 ws d Ht Hn Hl Hs) as [E|[E|[E1 E2]]].
   - left. now rewrite E.
   - right. now rewrite E.
   - left. rewrite E2, E1. apply empty_loads_as_absent.
